@@ -15,7 +15,8 @@ COQ_RUN = "run_case"
 TABLE_CONSTRUCTS = ["wrapped_step_order", "run_model_loop"]
 RULE = ("histories = 1-3 Model subclass hierarchies of depth 0-6 built with type() (each level: defines step or not, "
         "fixed arity 0-2 or *args/**kwargs, calls super().step() forwarding its arguments or none, clears running at a threshold, "
-        "raises at a step number, calls self.step() recursively below a threshold), half of the deeper ones with MULTIPLE "
+        "raises at a step number - a private exception, StopIteration, KeyError, AttributeError, IndexError or GeneratorExit -, "
+        "calls self.step() recursively below a threshold), half of the deeper ones with MULTIPLE "
         "inheritance (every class lists the next level first, then any later ones; 8 % with a reversed base list that must be "
         "refused), a quarter of the classes with falsy instances (__bool__ False, __len__ 0), a quarter with a step-defining mixin "
         "placed AFTER Model in the bases (must never run) + 1-4 instances (several of one class too) + 4-30 interleaved "
@@ -349,7 +350,10 @@ class _Driver:
                     allargs = [drv.unx(a) for a in args] + [drv.unx(kwargs[k]) for k in sorted(kwargs)]
                     drv.log.append((drv.index_of(self), idx, self.steps, bool(self.running), allargs))
                     if lv["raise"] is not None and self.steps == lv["raise"]:
-                        raise _Boom
+                        # user code raising half-way, also with the "control-flow" exception types a library might swallow
+                        exc = [_Boom, StopIteration, KeyError, AttributeError, IndexError, GeneratorExit][lv["raise"] % 6]("user code")
+                        exc._verif_user = True
+                        raise exc
                     if lv.get("rec") is not None and self.steps < lv["rec"]:
                         drv.depth += 1
                         try:
@@ -534,7 +538,9 @@ class _Driver:
                 m.step(*pos, **kw)
             except TypeError:
                 status = [-1, 2]
-            except _Boom:
+            except (_Boom, StopIteration, KeyError, AttributeError, IndexError, GeneratorExit) as e:
+                if not getattr(e, "_verif_user", False):
+                    raise
                 status = [-1, 3]
             evs = self.log[start:]
             what = f"instance {i} (class levels {levels}) step(*{pos}, **{kw}) with steps={s0} before"
@@ -569,7 +575,9 @@ class _Driver:
                 m.run_model()
             except TypeError:
                 status = [-1, 2]
-            except _Boom:
+            except (_Boom, StopIteration, KeyError, AttributeError, IndexError, GeneratorExit) as e:
+                if not getattr(e, "_verif_user", False):
+                    raise
                 status = [-1, 3]
             except _Budget:
                 status = [-4]
